@@ -13,6 +13,7 @@ import (
 	"strings"
 
 	corecrl "github.com/notaryproject/notation-core-go/revocation/crl"
+	"github.com/notaryproject/notation-core-go/signature"
 	"github.com/notaryproject/notation-go"
 	"github.com/notaryproject/notation-go/config"
 	"github.com/notaryproject/notation-go/dir"
@@ -150,6 +151,18 @@ func (l c12) Exec(env *core.Env) *core.Result {
 		validSigs["blob"+f] = b2
 		b3, _ := world.SignPayload(chain, world.PayloadFor(ociDesc), world.SignOpts{MediaType: f, ExtAttrs: pluginAttrs()})
 		validSigs["plug"+f] = b3
+		if f == world.COSE {
+			// COSE header labels may be integers: a numeric extended attribute next to the plugin attribute
+			for i, crit := range []bool{false, true} {
+				attrs := append(pluginAttrs(), signature.Attribute{Key: int64(1000 + i), Critical: crit, Value: "numeric label"})
+				if b4, err := world.SignPayload(chain, world.PayloadFor(ociDesc), world.SignOpts{MediaType: f, ExtAttrs: attrs}); err == nil {
+					validSigs[fmt.Sprint("plugnum", i)] = b4
+				}
+			}
+			if b5, err := world.SignPayload(chain, world.PayloadFor(ociDesc), world.SignOpts{MediaType: f, ExtAttrs: []signature.Attribute{{Key: int64(2000), Critical: false, Value: 42}}}); err == nil {
+				validSigs["num"] = b5
+			}
+		}
 	}
 	// restore the directory globals afterwards
 	oldCfg, oldLib, oldCache := dir.UserConfigDir, dir.UserLibexecDir, dir.UserCacheDir
@@ -202,9 +215,17 @@ func (l c12) Exec(env *core.Env) *core.Result {
 				switch {
 				case op.Kind == "verifyplugin" && sp != nil:
 					sig = validSigs["plug"+format]
+					if format == world.COSE && c%3 != 0 {
+						if alt := validSigs[[]string{"plugnum0", "plugnum1", "num"}[c%3]]; alt != nil {
+							sig = alt
+						}
+					}
 					entry = 0
 					// byzantine verification plugin responses
-					switch a % 7 {
+					switch a % 8 {
+					case 7: // an honest answer
+						sp.Verdicts = map[pf.Capability]*pf.VerificationResult{pf.CapabilityTrustedIdentityVerifier: {Success: true}, pf.CapabilityRevocationCheckVerifier: {Success: true}}
+						sp.Processed = []interface{}{"1000", int64(1001), 1000}
 					case 0:
 						sp.Verdicts = nil
 					case 1:
